@@ -812,7 +812,7 @@ pub fn run(which: Which, ctx: &mut Ctx) {
     // (d) long adjacency lists: a hub with 9 .. 2100 parallel/out edges built by a burst of connects, then a
     // short checked history around the hub (try_connect in both directions with an edge in one direction
     // only, lookups, disconnects, isolate). Sizes sit on both sides of the powers of two.
-    let sizes: Vec<u32> = tier.pick(vec![9, 17, 33, 65, 129, 257, 513, 1025, 2049, 4100], vec![9, 17, 33, 65, 129, 257, 513, 1025, 2049, 4100, 8200, 16_400]);
+    let sizes: Vec<u32> = tier.pick(vec![9, 17, 33, 65, 129, 257, 513, 1025, 2049, 4100, 8200], vec![9, 17, 33, 65, 129, 257, 513, 1025, 2049, 4100, 8200, 16_400, 33_000, 66_000, 132_000]);
     let mut scripted: Vec<HistCase> = vec![];
     for &k in &sizes {
         for inward in [false, true] {
@@ -851,6 +851,9 @@ pub fn run(which: Which, ctx: &mut Ctx) {
                     o(OpKind::Lookup, h, 2, 0),
                     o(OpKind::Isolate, 1, 1, 0),
                     o(OpKind::TryConnect, h, 1, 0),
+                    // the hub is isolated while node 2 is its neighbour in both directions
+                    o(OpKind::Connect, 2, h, 3),
+                    o(OpKind::Connect, h, 2, 4),
                     o(OpKind::Isolate, h, h, 0),
                     o(OpKind::Connect, h, 1, 0),
                 ];
